@@ -144,12 +144,26 @@ def sequence_case(seed):
         for t in range(T):
             H = ([np.asarray(l) for l in sm._history["logl"]], [float(b) for b in sm._history["beta"]], [float(z) for z in sm._history["logz"]])
             beta_prev = float(sm.get_current("beta"))
+            # the same step on a fresh Reweighter over a copy of the state (differential oracle for remembered state)
+            sm2 = StateManager.from_dict(sm.to_dict())
+            rw2 = Reweighter(sm2, None, n_particles=N, ess_ratio=er, volume_variation=vol, ESS_TOLERANCE=ESS_TOLERANCE, BETA_TOLERANCE=BETA_TOLERANCE)
+            try:
+                w2 = rw2.run()
+                fresh = (float(sm2.get_current("beta")), float(sm2.get_current("logz")), float(sm2.get_current("ess")), np.asarray(w2).copy())
+            except Exception:
+                fresh = None
             limits.clear()
             try:
                 w = rw.run()
             except Exception:
                 bad.append(("exception", fmt_exc()[-400:]))
                 break
+            if fresh is not None and H[0]:
+                if (fresh[0], fresh[1], fresh[2]) != (float(sm.get_current("beta")), float(sm.get_current("logz")), float(sm.get_current("ess"))) \
+                        or not np.array_equal(fresh[3], np.asarray(w)):
+                    bad.append(("reweighter-depends-on-its-past", f"step {t + 1}: long-lived Reweighter chose beta={float(sm.get_current('beta'))!r}, a fresh one on the "
+                                f"same state chooses {fresh[0]!r} [vol={vol}, directed={directed}]"))
+                    break
             rec = dict(beta=float(sm.get_current("beta")), logz=float(sm.get_current("logz")), ess=float(sm.get_current("ess")))
             if H[0]:
                 stats["steps"] += 1
@@ -229,15 +243,45 @@ def real_case(cfg, pin=None):
         hk.wrap(StateManager, "commit_current_to_history", before=commit_before)
         hk.wrap(Reweighter, "_find_beta_upper_limit", after=lambda ctx, r, *a, **k: limits.append(float(r)))
 
+        inner = {"on": False}
+
         def before(self):
+            if inner["on"]:
+                return None
             H = runs.history(s)
             limits.clear()
-            return (H["logl"], [float(b) for b in H["beta"]], [float(z) for z in H["logz"]], float(self.state.get_current("beta")))
+            # differential oracle: a FRESH reweighter on a copy of the same state must decide exactly the same thing as the
+            # long-lived one (anything a Reweighter remembers from earlier iterations must not change its answer)
+            fresh = None
+            try:
+                from tempest.state_manager import StateManager as SM
+                sm2 = SM.from_dict(self.state.to_dict())
+                rw2 = Reweighter(sm2, None, n_particles=self.n_particles, ess_ratio=self.ess_ratio, volume_variation=self.volume_variation,
+                                 ESS_TOLERANCE=self.ESS_TOLERANCE, BETA_TOLERANCE=self.BETA_TOLERANCE)
+                inner["on"] = True
+                keep = list(limits)
+                w2 = rw2.run()
+                limits[:] = keep
+                fresh = (float(sm2.get_current("beta")), float(sm2.get_current("logz")), float(sm2.get_current("ess")), np.asarray(w2).copy())
+            except Exception as e:
+                fresh = ("error", repr(e))
+            finally:
+                inner["on"] = False
+            return (H["logl"], [float(b) for b in H["beta"]], [float(z) for z in H["logz"]], float(self.state.get_current("beta")), fresh)
 
         def after(ctx, w, self):
-            logl, betas, logzs, beta_prev = ctx
+            if ctx is None:
+                return
+            logl, betas, logzs, beta_prev, fresh = ctx
             stats["iters"] += 1
             rec = dict(beta=float(self.state.get_current("beta")), logz=float(self.state.get_current("logz")), ess=float(self.state.get_current("ess")))
+            if fresh is not None and fresh[0] != "error":
+                stats["fresh"] = stats.get("fresh", 0) + 1
+                same = (fresh[0] == rec["beta"] and fresh[1] == rec["logz"] and fresh[2] == rec["ess"] and fresh[3].shape == np.shape(w)
+                        and np.array_equal(fresh[3], np.asarray(w)))
+                if not same and len(bad) < 10:
+                    bad.append(("reweighter-depends-on-its-past", f"iteration {stats['iters']}: the long-lived Reweighter chose beta={rec['beta']!r} (logZ {rec['logz']!r}, "
+                                f"ESS {rec['ess']!r}); a fresh Reweighter on the same state chooses beta={fresh[0]!r} (logZ {fresh[1]!r}, ESS {fresh[2]!r})"))
             if not logl:
                 if rec["beta"] != 0.0:
                     bad.append(("first-beta-not-zero", f"first iteration beta={rec['beta']}"))
@@ -325,6 +369,7 @@ def run():
         ck.event("real-run Reweighter.run invocations judged", stats["iters"])
         ck.event("real-run iterations on which beta advanced", stats["advanced"])
         ck.event("real-run commits compared with what the reweighting step recorded", stats.get("commits", 0))
+        ck.event("reweighting steps replayed on a fresh Reweighter (differential)", stats.get("fresh", 0))
         ck.event("real runs with an injected reweighter decision inside the last 2e-4 below one", stats.get("pinned", 0))
         seen = set()
         for key, what in bad:
